@@ -142,6 +142,14 @@ func c18Stress(sc *c18Script) map[string]interface{} {
 				}
 				subs[a.ID] = s
 				allSubs = append(allSubs, s)
+			case "start-refused":
+				// the upstream accepts the websocket handshake and resets the connection: the
+				// gateway's Subscribe fails after the dial; nothing it started may stay behind
+				rig.ups.SetRefuseInit(true)
+				client.Start(a.ID, "subscription { tick }", nil, nil)
+				time.Sleep(15 * time.Millisecond)
+				rig.ups.SetRefuseInit(false)
+				res["refused_starts"] = 1
 			case "stop":
 				client.Stop(a.ID)
 			case "terminate":
